@@ -91,10 +91,14 @@ Definition is_object_type (v : val) : bool := jstype_eqb (typeof v) TObject.
 Fixpoint index_strings_from (i : nat) (n : nat) : list string :=
   match n with O => [] | S n' => nat_to_string i :: index_strings_from (S i) n' end.
 
+(* pseudo-key of the model: "the prototype of this object was replaced by ..." (see Parse.v obj_assign);
+   never an own key *)
+Definition proto_mark := "<proto>".
+
 (* Object.keys(v) for an object-typed v *)
 Definition own_keys (v : val) : list string :=
   match v with
-  | VObj fs => keys fs
+  | VObj fs => filter (fun k => negb (String.eqb k proto_mark)) (keys fs)
   | VArr xs => index_strings_from 0 (List.length xs)
   | VTyped _ xs => index_strings_from 0 (List.length xs)
   | _ => []
@@ -109,6 +113,11 @@ Fixpoint find_index_key (k : string) (i : nat) (xs : list val) : option val :=
 (* the value of Object.prototype, as far as validators can observe it *)
 Definition object_prototype : val := VObj [].
 
+(* the elements of BigInt64Array / BigUint64Array are bigints *)
+Definition typed_is_big (k : typed_kind) : bool :=
+  match k with BigInt64Array | BigUint64Array => true | _ => false end.
+Definition typed_elem (k : typed_kind) (z : Z) : val := if typed_is_big k then VBig z else VNum (NInt z).
+
 (* v[k] for an object-typed, non-null v and a string key *)
 Definition get (v : val) (k : string) : val :=
   let inherited :=
@@ -120,9 +129,9 @@ Definition get (v : val) (k : string) : val :=
   | VArr xs =>
       if String.eqb k "length" then VNum (NInt (Z.of_nat (List.length xs)))
       else match find_index_key k 0 xs with Some x => x | None => inherited end
-  | VTyped _ xs =>
+  | VTyped tk xs =>
       if String.eqb k "length" then VNum (NInt (Z.of_nat (List.length xs)))
-      else match find_index_key k 0 (map (fun z => VNum (NInt z)) xs) with Some x => x | None => inherited end
+      else match find_index_key k 0 (map (typed_elem tk) xs) with Some x => x | None => inherited end
   | VDate _ | VRegExp | VMap _ | VSet _ => inherited
   | _ => VUndef
   end.
